@@ -20,6 +20,11 @@ pub struct Case {
     pub at: u32,
     /// trailing operations on the same key: 0 get 1 touch 2 put 3 set 4 set of another key with maintenance firing
     pub trailing: Vec<u8>,
+    /// how the CacheBuilder was obtained: 0 fresh `new()` with auto_sync set explicitly, 1 a builder
+    /// already used once (`take()` reset it), 2 `CacheBuilder::default()`; in 1 and 2 auto_sync is
+    /// left at its default, which is documented to be true
+    #[serde(default)]
+    pub builder: u8,
 }
 
 const KEY: &str = "key";
@@ -131,7 +136,9 @@ pub fn judge(root: &Path, c: &Case) -> Result<(u32, u32, bool), (String, String)
     let mut fault_hit = false;
     let (r, ev) = traced(&world, || {
         script_rng(true, 1);
+        set_builder_mode(if c.auto_sync { c.builder } else { 0 });
         let h = open_stack(root, &spec);
+        set_builder_mode(0);
         match c.fault {
             1 => {
                 // fail the j-th fsync: find its call index by counting fsyncs is not possible in advance,
@@ -259,7 +266,7 @@ pub fn run(ctx: &Ctx) -> Report {
                             continue;
                         }
                         for tr in &trailing_sets {
-                            let base = Case { path, sharded, size, present, auto_sync, fault: 0, at: 0, trailing: tr.clone() };
+                            let base = Case { path, sharded, size, present, auto_sync, fault: 0, at: 0, trailing: tr.clone(), builder: ((idx as usize + tr.len()) % 3) as u8 };
                             let r = judge(&scratch.path, &base);
                             let n_calls = r.as_ref().map(|x| x.1).unwrap_or(0);
                             record(&mut rep, &base, r);
@@ -307,6 +314,7 @@ pub fn run(ctx: &Ctx) -> Report {
             fault: 0,
             at: 0,
             trailing: (0..rng.below(8)).map(|_| rng.below(5) as u8).collect(),
+            builder: rng.below(3) as u8,
         };
         let r = judge(&scratch.path, &c);
         record(&mut rep, &c, r);
